@@ -72,10 +72,12 @@ func c04R1R2(c *Ctx, r *Report) {
 
 	// R2: the literal passed to forEachLeaf
 	var lit *ssa.Function
+	var litMC *ssa.MakeClosure
 	for _, call := range c.Calls(win, false, nameIs("(db.RevTree).forEachLeaf")) {
 		for _, a := range call.Common().Args {
 			if mc, ok := unwrap(a).(*ssa.MakeClosure); ok {
 				lit, _ = mc.Fn.(*ssa.Function)
+				litMC = mc
 			}
 		}
 	}
@@ -83,14 +85,67 @@ func c04R1R2(c *Ctx, r *Report) {
 		r.Fail("C04-R2", "fn=(db.RevTree).winningRevision leaf-fold", c.Pos(win.Pos()), "the winner is no longer computed by a fold over the leaves")
 		return
 	}
-	// free variables by name
+	// fold state, identified by role (not by name): the cell returned as the winner, the cells whose '> 1' tests are returned as
+	// branched / inConflict, and the one captured boolean (does the incumbent exist)
+	cellIdx := map[ssa.Value]int{}
+	for i, b := range litMC.Bindings {
+		cellIdx[b] = i
+	}
+	cellOfLoad := func(v ssa.Value) ssa.Value {
+		if ad, ok := loadOf(v); ok {
+			return rootAddr(ad)
+		}
+		return nil
+	}
+	countCell := func(v ssa.Value) ssa.Value {
+		b, ok := unwrapLoadFree(v).(*ssa.BinOp)
+		if !ok || b.Op != token.GTR {
+			return nil
+		}
+		if k, ok := constInt(b.Y); !ok || k != 1 {
+			return nil
+		}
+		return cellOfLoad(b.X)
+	}
 	fvIdx := map[string]int{}
+	for _, ret := range Returns(win) {
+		if len(ret.Results) != 3 {
+			continue
+		}
+		if cl := cellOfLoad(ret.Results[0]); cl != nil {
+			if i, ok := cellIdx[cl]; ok {
+				fvIdx["winner"] = i
+			}
+		}
+		if cl := countCell(ret.Results[1]); cl != nil {
+			if i, ok := cellIdx[cl]; ok {
+				fvIdx["leafCount"] = i
+			}
+		}
+		if cl := countCell(ret.Results[2]); cl != nil {
+			if i, ok := cellIdx[cl]; ok {
+				fvIdx["activeLeafCount"] = i
+			}
+		}
+	}
+	nBool := 0
 	for i, fv := range lit.FreeVars {
-		fvIdx[fv.Name()] = i
+		if pt, ok := fv.Type().(*types.Pointer); ok && isBoolType(pt.Elem()) {
+			fvIdx["winnerExists"] = i
+			nBool++
+		}
+		if pt, ok := fv.Type().(*types.Pointer); !ok || namedOf(pt.Elem()) == "Context" {
+			if _, isPtr := fv.Type().(*types.Pointer); !isPtr {
+				fvIdx["ctx"] = i
+			}
+		}
+	}
+	if a, b := fvIdx["leafCount"], fvIdx["activeLeafCount"]; a == b {
+		delete(fvIdx, "activeLeafCount")
 	}
 	for _, need := range []string{"winner", "winnerExists", "leafCount", "activeLeafCount"} {
-		if _, ok := fvIdx[need]; !ok {
-			r.Fail("C04-R2", "fn=(db.RevTree).winningRevision$fold state="+need, c.Pos(lit.Pos()), "fold state variable not found; rule must be re-confirmed")
+		if _, ok := fvIdx[need]; !ok || (need == "winnerExists" && nBool != 1) {
+			r.Fail("C04-R2", "fn=(db.RevTree).winningRevision$fold state="+need, c.Pos(lit.Pos()), "fold state could not be identified by role (returned winner cell / '>1' count cells / single captured boolean); rule must be re-confirmed")
 			return
 		}
 	}
@@ -126,8 +181,10 @@ func c04R1R2(c *Ctx, r *Report) {
 				*cells[fvIdx["winnerExists"]] = aBool(winnerExists)
 				*cells[fvIdx["leafCount"]] = aSym{0}
 				*cells[fvIdx["activeLeafCount"]] = aSym{0}
-				if i, ok := fvIdx["ctx"]; ok {
-					bind[i] = aOpaque{"ctx"}
+				for i, fv := range lit.FreeVars {
+					if _, isPtr := fv.Type().(*types.Pointer); !isPtr {
+						bind[i] = aOpaque{"captured " + fv.Type().String()}
+					}
 				}
 				left := func() (left string) {
 					defer func() {
@@ -184,27 +241,12 @@ func c04R1R2(c *Ctx, r *Report) {
 	okC := false
 	for _, ret := range Returns(win) {
 		if len(ret.Results) == 3 {
-			okB = isCountGT1(unwrapLoadFree(ret.Results[1]), "leafCount")
-			okC = isCountGT1(unwrapLoadFree(ret.Results[2]), "activeLeafCount")
+			cb, cc := countCell(ret.Results[1]), countCell(ret.Results[2])
+			okB = cb != nil
+			okC = cc != nil && cc != cb
 		}
 	}
 	r.Check("C04-R2", "fn=(db.RevTree).winningRevision branched=leafCount>1 inConflict=activeLeafCount>1", c.Pos(win.Pos()), okB && okC, "flags are the leaf counts compared with 1", "branched/conflict indicators no longer derive from the leaf counts")
-}
-
-func isCountGT1(v ssa.Value, cell string) bool {
-	b, ok := v.(*ssa.BinOp)
-	if !ok || b.Op != token.GTR {
-		return false
-	}
-	if k, ok := constInt(b.Y); !ok || k != 1 {
-		return false
-	}
-	ad, ok := loadOf(b.X)
-	if !ok {
-		return false
-	}
-	al, ok := rootAddr(ad).(*ssa.Alloc)
-	return ok && al.Comment == cell
 }
 
 func c04R3(c *Ctx, r *Report) {
